@@ -196,3 +196,40 @@ def _refill(col, eos, g):
         for j in range(i + 1, len(col)):
             col[j] = int(torch.randint(-3, 12, (1,), generator=g))
     return col
+
+
+# ---- mechanism B: the repository's own tests as an additional workload (thorough tier)
+PYTEST_FILES = ["tests/test_string.py"]
+
+
+def hook_case(module, args, kwargs, output):
+    name = type(module).__name__
+    if name not in ("EditDistance", "PrefixEditDistances"):
+        return None
+    ref, hyp = args[0], args[1]
+    if ref.dim() != 2 or hyp.dim() != 2 or ref.numel() > 4000 or hyp.numel() > 4000:
+        return None
+    if min(module.ins_cost, module.del_cost, module.sub_cost) <= 0:
+        return None
+    bf = bool(module.batch_first)
+    r = (ref if bf else ref.t()).tolist()
+    h = (hyp if bf else hyp.t()).tolist()
+    if len(r) != len(h) or len(r) == 0:
+        return None
+    return {
+        "class": "repo_test_call", "ref": r, "hyp": h, "eos": module.eos,
+        "include_eos": bool(module.include_eos), "norm": bool(module.norm), "batch_first": bf,
+        "exclude_last": bool(getattr(module, "exclude_last", False)),
+        "costs": [float(module.ins_cost), float(module.del_cost), float(module.sub_cost)],
+        "padding": int(getattr(module, "padding", -100)), "form": "functional",
+        "R": len(r[0]), "H": len(h[0]), "observed_module": name,
+    }
+
+
+def hook_compare(case, output, mon):
+    """The value the test itself received must be what the judged re-execution produced."""
+    ref_t, hyp_t = G.to_tensors(case)
+    which = "edit_distance" if case["observed_module"] == "EditDistance" else "prefix_edit_distances"
+    again = _call(mon, case, which, ref_t, hyp_t)
+    same = (again == output) | (again.isnan() & output.isnan())
+    mon.check(bool(same.all()), "observed-output", observed=output, expected=again)
